@@ -433,17 +433,22 @@ class ConvertTypeTransformation(ValueTransformation):
                     )
 
             if isinstance(val, SigmaExpansion):
-                for i, entry in enumerate(val.values):
+                # build a new expansion: a value that can't be converted must not leave the
+                # expansion of the detection item half converted
+                converted: list[SigmaType] = []
+                for entry in val.values:
                     # Only convert SigmaString entries to SigmaNumber
                     if isinstance(entry, SigmaString):
                         try:
-                            val.values[i] = SigmaNumber(str(entry))
+                            converted.append(SigmaNumber(str(entry)))
                         except SigmaValueError:
                             raise SigmaValueError(
                                 f"Value '{entry}' can't be converted to number for {str(self)}"
                             )
+                    else:
+                        converted.append(entry)
 
-                return val
+                return SigmaExpansion(converted)
 
             # Return None for other types - no conversion
             return None
